@@ -27,7 +27,7 @@ BaseBundle(k) ==
                                      Ex(U1, <<H(S_Variants, VAR1), H(S_VariantKey, <<102,114>>)>>, 24) >>)
     [] k = 3 -> B("b2", FALSE, FALSE, << Ex(U1, <<>>, 0) >>)
     [] k = 4 -> B("b2", TRUE, FALSE, <<>>)
-    [] k = 8 -> B("b2", FALSE, FALSE, << Ex(U1, << H(<<>>, <<118>>), CT >>, 5), Ex(U2, <<>>, 0) >>)      \* a header with an empty name; a response without headers and body
+    [] k = 8 -> B("b2", FALSE, FALSE, << Ex(U1, << H(<<>>, <<118>>), CT, H(<<120,45,112>>, <<32,118,9>>) >>, 5), Ex(U2, <<>>, 0) >>)      \* a header with an empty name, a value with surrounding white space; a response without headers and body
     [] k = 7 -> B("b2", FALSE, FALSE, << Ex(U1, <<CT>>, 300) >>)          \* responses section longer than everything before it
     \* a response whose encoded length is exactly 256 (19 01 00) and a second one starting at offset 256+1: cutting the
     \* last byte(s) of the index leaves an argument whose missing low bytes would read as zero
